@@ -61,7 +61,7 @@ class Recorder:
         elif n in ("EVT_DIMSE_SENT", "EVT_DIMSE_RECV"):
             d = type(event.message).__name__
         rec = (self.side, id_of(self, event.assoc), n, d)
-        self.log.append(rec)
+        self.log.append(rec + (self.sched.now,))
         self.sched.obs.append(("evt",) + rec)
 
 
